@@ -27,6 +27,7 @@ type ProgCase struct {
 		Cyc2   int              `json:"cyc2"`
 		Cyc3   int              `json:"cyc3"`
 		Cyc4   int              `json:"cyc4"` // spec/Mvp4 cycle-accurate model; -1 = not evaluated
+		Cyc5   int              `json:"cyc5"` // the same model with the branch target buffer of MVP-5
 		Pcs    []int            `json:"pcs"`
 		Addrs  []int            `json:"addrs"`
 	} `json:"exp"`
